@@ -227,16 +227,11 @@ pub fn gen_bset_mask<const B: usize>(s: &mut dyn Src) -> BoundedSet<B, u8> {
 
 pub struct Report {
    pub failed: Vec<&'static str>,
-   pub panic_on_fail: bool,
 }
 impl Report {
-   pub fn new(panic_on_fail: bool) -> Self { Report { failed: vec![], panic_on_fail } }
-   #[inline(always)]
+   pub fn new() -> Self { Report { failed: vec![] } }
    pub fn check(&mut self, name: &'static str, ok: bool) {
-      if !ok {
-         if self.panic_on_fail {
-            panic!("obligation failed: {}", name);
-         }
+      if !ok && !self.failed.contains(&name) {
          self.failed.push(name);
       }
    }
@@ -469,7 +464,7 @@ macro_rules! registry {
             #[kani::unwind(20)]
             fn $name() {
                let mut s = KaniSrc;
-               let mut r = Report::new(true);
+               let mut r = Report::new();
                run::$name(&mut s, &mut r);
             }
          )*
